@@ -28,7 +28,11 @@
 (*      channel.rs sign_counterparty_commitment_tx[_phase2], tx/tx.rs       *)
 (*      handle_output and simple_validator.rs decode_commitment_tx in the   *)
 (*      code's order (conformance only);                                    *)
-(*   5. the property as monitors over ONE observation (the Bad_ operators).              *)
+(*   5. the property as monitors over ONE observation (the Bad_ operators); *)
+(*   6. the HISTORY dimension of a case (Histories): a fresh number, a      *)
+(*      retry of a signed number, and both again AFTER A SIGNER RESTART     *)
+(*      (Restart: the signer restored from its store) - the same monitors   *)
+(*      judge the requests made after the restart.                          *)
 (*                                                                         *)
 (* The same operators judge the abstract cases of the model (MC_CommitTx,   *)
 (* leg A) and the records LOGGED BY THE HARNESS from the real crates with   *)
@@ -436,10 +440,62 @@ StepSem(S, C, pool, K) ==
 
 ---------------------------------------------------------------------------
 (***************************************************************************)
+(* RESTARTS.  The signer may be stopped and restored from its store between *)
+(* any two requests (node.rs Node::restore_nodes / new_from_persistence:    *)
+(* every channel is rebuilt from its persisted entry - channel id, funding  *)
+(* value, setup, enforcement state - and gets a NEWLY DERIVED key object).  *)
+(* What the two entry points read of a channel is                           *)
+(*    sg = [S, rec]   the negotiated setup - INCLUDING the funding value:   *)
+(*                    the BIP-143 signature hash of a commitment commits to *)
+(*                    the amount of the funding output it spends            *)
+(*                    (SighashAmount), so a signature made with another     *)
+(*                    amount is a signature for NO transaction spending the *)
+(*                    real funding output - and the content recorded for    *)
+(*                    the current number ("none" before its first request). *)
+(* All of it is persisted before a request is answered, so a restart is the *)
+(* step  sg' = Restart(sg) = sg : it is NOT observable through the entry    *)
+(* points.  StepSem / StepRaw / StepRetry therefore apply unchanged to the  *)
+(* restored signer and - this is the property - so do the monitors below:   *)
+(* a signature returned after a restart verifies under the channel's        *)
+(* funding key against the canonical transaction with the real funding      *)
+(* amount, the raw entry point accepts exactly the canonical transaction    *)
+(* and returns the semantic entry point's signature, HTLC signatures are    *)
+(* for the second-level transactions.                                       *)
+(*                                                                         *)
+(* The HISTORY of a case (state dimension of the matrix) says where the     *)
+(* requests are made:                                                       *)
+(*   "fresh"          number n not yet signed (commitments 0..n-1 signed    *)
+(*                    and revoked before)                                   *)
+(*   "retry"          raw requests after the accepted semantic request for  *)
+(*                    n (they are retries)                                  *)
+(*   "restart"        as "fresh", but the signer is RESTARTED after the     *)
+(*                    channel was set up and brought to n: the semantic     *)
+(*                    request, its repetition, the retries and all raw      *)
+(*                    requests are made on the restored signer              *)
+(*   "restart_retry"  as "retry", but the signer is RESTARTED after the     *)
+(*                    accepted first semantic request for n: its            *)
+(*                    repetition, the retries and all raw requests (retries *)
+(*                    of the number signed BEFORE the restart) are made on  *)
+(*                    the restored signer                                   *)
+(***************************************************************************)
+Histories == {"fresh", "retry", "restart", "restart_retry"}
+RetryHist(h)   == h \in {"retry", "restart_retry"}
+RestartHist(h) == h \in {"restart", "restart_retry"}
+NoRec == "none"
+Signer(S, rec) == [S |-> S, rec |-> rec]
+Restart(sg) == sg
+\* the signer a history leaves for the requests that are judged
+SignerAt(S, rec, h) == IF RestartHist(h) THEN Restart(Signer(S, rec)) ELSE Signer(S, rec)
+\* the input amount the commitment signature commits to
+SighashAmount(S) == S.value
+
+---------------------------------------------------------------------------
+(***************************************************************************)
 (* THE PROPERTY as monitors over one observation.                           *)
 (*   raw  : resp = [ok, tag, sub, canon, same]  - sub / canon: the returned *)
 (*          signature verifies, under the holder's funding key, against     *)
-(*          the sighash of the submitted / of the canonical transaction;    *)
+(*          the sighash of the submitted / of the canonical transaction     *)
+(*          spending the funding output of SighashAmount(S) satoshi;        *)
 (*          same: it is byte for byte the signature the semantic entry      *)
 (*          point returned for this content                                 *)
 (*   sem  : resp = [ok, tag, canon, hs <<[j, typ]>>] - hs[k]: the k-th HTLC *)
